@@ -73,6 +73,19 @@ def atoms(f, ctx, x, pol, out=None, depth=0):
         if rc is not None and nop == '<' and p and rc <= 0:
             pass
         return out
+    if k == 'call' and e.get('ctype') == 'operator' and e.get('op') in NEG:
+        # overloaded comparison (iterators, strings): same normalisation as the built-in one
+        if 'recv' in e and len(e.get('args', [])) == 1:
+            l, r = e['recv'], e['args'][0]
+        elif len(e.get('args', [])) == 2:
+            l, r = e['args']
+        else:
+            l = r = None
+        if l is not None:
+            nop, same = NEG[e['op']]
+            p = pol if same else (not pol)
+            out.append(('%s %s %s' % (f.show(l, ctx), nop, f.show(r, ctx)), p))
+            return out
     if k == 'call' and is_conversion(e) and not e.get('args'):
         # conversion operator: truthiness of the object
         out.append((f.show(e['recv'], ctx), pol))
@@ -462,6 +475,8 @@ class GuardTracker(Tracker):
         wp = self.written_path(ev)
         callee = ev.callee() if ev.kind in ('call', 'construct') else None
         shown = ev.show() if ev.kind == 'call' else None
+        if shown is not None and '(' not in shown:
+            shown = None      # operator-> / conversions print as the object path: not a re-evaluated call
         declared = [ev.f.decls[v['decl']]['name'] for v in ev.e['vars']] if ev.kind == 'declstmt' else ()
         dead = set()
         for g in gs:
